@@ -38,10 +38,10 @@ func init() {
 	prop("C04", []string{"W-IMPORTS-WRITERS", "W-REGISTER-CALLERS", "W-ISNULL-PURE", "P-RENDERITEMS", "P-STMTRENDER", "P-DICT", "P-FILERENDER-ORDER", "P-IMPORTBLOCK", "P-CTOR"},
 		"Only the registration function and Anon add entries to File.imports (hints never do); registration is called only while a package token is rendered or pre-registered by the list renderer; null tests are pure and cannot register; an item judged nil / null is never rendered (list renderers, Dict pairs); the body is rendered before the import block is printed and nothing registers afterwards; the block is printed from the table's keys.",
 		"exactly-once per path additionally relies on map keys being unique (language guarantee)")
-	prop("C05", []string{"T-RESERVED", "P-VALIDALIAS", "P-REGISTER", "T-REGEX"},
+	prop("C05", []string{"T-RESERVED", "P-VALIDALIAS@@!the name init", "P-REGISTER", "T-REGEX"},
 		"The reserved-word predicate is a pure membership test over a table containing all 25 keywords and all universe-scope identifiers of the analysing toolchain (exhaustive); the validity predicate rejects reserved words and every already registered name; the name entered in the table is the very string that passed that test (with or without PackagePrefix); guessed names consist of ASCII letters / digits, are never empty and never start with a digit.",
 		"whether a user-supplied PackagePrefix is itself a legal identifier")
-	prop("C06", []string{"P-LOCALDOT", "P-ISNULL", "P-VALIDALIAS", "P-REGISTER", "P-RENDERITEMS", "P-CTOR@path"},
+	prop("C06", []string{"P-LOCALDOT", "P-ISNULL", "P-VALIDALIAS@@!is never accepted", "P-REGISTER", "P-RENDERITEMS", "P-CTOR@path"},
 		"isLocal is exact string equality; isDotImport is, for an unregistered path, exactly hints[path] = {\".\", alias} and otherwise exactly \"the registered name is .\"; a package token is null exactly for dot-imported or local paths; \".\" is accepted as a name unconditionally and first; prefix / numbering never touch a name not known to differ from \".\"; the list renderer registers every package token before its null test, so a dot import is still emitted.",
 		"resolution of the bare identifier by the Go compiler")
 	prop("C07", []string{"P-MAPRANGE", "W-NONDET-API", "P-TAG", "W-RENDER-STORES"},
